@@ -148,6 +148,7 @@ type inst struct {
 	calls      []*call
 	nReserveOK int
 	leaseWon   []mtypes.LeaseID // distinct leases for which event.LeaseWon was published
+	refused    []string         // calls made with a context that was already done: nothing was submitted
 
 	// environment-owned
 	events       []string
@@ -279,6 +280,20 @@ func (h *inst) call(kind string, price sdk.Coin) string {
 
 var errInjected = errors.New("injected failure")
 
+// ctxDone models what the real clients do with a context that is ALREADY done when the call is made
+// (client/broadcaster/serial.go: `select { case c.broadcastch <- request: ...; case <-ctx.Done(): return ctx.Err() }`,
+// gRPC queries likewise): the call returns ctx.Err() at once and NOTHING is submitted - it is not registered as a
+// call, only remembered as refused. The context package is not virtualised, but a zero/negative timeout is done
+// immediately and a cancel() by the order's own goroutine is visible; the value read is folded into the history.
+func (h *inst) ctxDone(ctx context.Context, kind string) error {
+	err := ctx.Err()
+	vs.Note("ctx", kind, err != nil)
+	if err != nil {
+		h.refused = append(h.refused, kind)
+	}
+	return err
+}
+
 var bidStates = map[string]mtypes.Bid_State{
 	"found-open": mtypes.BidOpen, "found-active": mtypes.BidActive, "found-lost": mtypes.BidLost, "found-closed": mtypes.BidClosed,
 }
@@ -294,14 +309,20 @@ type scriptedQuery struct {
 	h *inst
 }
 
-func (q *scriptedQuery) Group(_ context.Context, _ *dtypes.QueryGroupRequest, _ ...grpc.CallOption) (*dtypes.QueryGroupResponse, error) {
+func (q *scriptedQuery) Group(ctx context.Context, _ *dtypes.QueryGroupRequest, _ ...grpc.CallOption) (*dtypes.QueryGroupResponse, error) {
+	if err := q.h.ctxDone(ctx, kGroup); err != nil {
+		return nil, err
+	}
 	if q.h.call(kGroup, sdk.Coin{}) != "ok" {
 		return nil, errInjected
 	}
 	return &dtypes.QueryGroupResponse{Group: q.h.group}, nil
 }
 
-func (q *scriptedQuery) Bid(_ context.Context, req *mtypes.QueryBidRequest, _ ...grpc.CallOption) (*mtypes.QueryBidResponse, error) {
+func (q *scriptedQuery) Bid(ctx context.Context, req *mtypes.QueryBidRequest, _ ...grpc.CallOption) (*mtypes.QueryBidResponse, error) {
+	if err := q.h.ctxDone(ctx, kBidQuery); err != nil {
+		return nil, err
+	}
 	v := q.h.call(kBidQuery, sdk.Coin{})
 	switch v {
 	case "found-open", "found-active", "found-lost", "found-closed":
@@ -316,7 +337,7 @@ func (q *scriptedQuery) Bid(_ context.Context, req *mtypes.QueryBidRequest, _ ..
 
 type scriptedTx struct{ h *inst }
 
-func (t *scriptedTx) Broadcast(_ context.Context, msgs ...sdk.Msg) error {
+func (t *scriptedTx) Broadcast(ctx context.Context, msgs ...sdk.Msg) error {
 	kind, price := kOtherTx, sdk.Coin{}
 	if len(msgs) == 1 {
 		switch m := msgs[0].(type) {
@@ -325,6 +346,9 @@ func (t *scriptedTx) Broadcast(_ context.Context, msgs ...sdk.Msg) error {
 		case *mtypes.MsgCloseBid:
 			kind = kCloseBid
 		}
+	}
+	if err := t.h.ctxDone(ctx, kind); err != nil {
+		return err
 	}
 	if t.h.call(kind, price) != "ok" {
 		return errInjected
@@ -359,7 +383,10 @@ func (c *scriptedCluster) Unreserve(mtypes.OrderID) error {
 // scriptedPricing replaces the strategies of pricing.go (not instrumented: shell scripts, crypto/rand).
 type scriptedPricing struct{ h *inst }
 
-func (p *scriptedPricing) CalculatePrice(context.Context, string, *dtypes.GroupSpec) (sdk.Coin, error) {
+func (p *scriptedPricing) CalculatePrice(ctx context.Context, _ string, _ *dtypes.GroupSpec) (sdk.Coin, error) {
+	if err := p.h.ctxDone(ctx, kPrice); err != nil {
+		return sdk.Coin{}, err
+	}
 	switch p.h.call(kPrice, sdk.Coin{}) {
 	case "ok":
 		return sdk.NewInt64Coin(denom, maxPrice), nil // exactly the maximum: allowed
@@ -640,7 +667,13 @@ func (h *inst) check(r *vs.Result) (string, []string) {
 			}
 		}
 		if placed > 0 && len(byKind[kCloseBid]) == 0 {
-			if !h.createSettled {
+			closeRefused := false
+			for _, k := range h.refused {
+				closeRefused = closeRefused || k == kCloseBid
+			}
+			if closeRefused {
+				bad("bid-not-closed:close-bid-context-already-done", "the order monitor terminated (lease not won) after a successful MsgCreateBid; its MsgCloseBid broadcast was made with a context that was already cancelled / expired, so the client returned ctx.Err() without submitting anything")
+			} else if !h.createSettled {
 				bad("bid-not-closed:create-bid-in-flight-at-exit", "the order monitor terminated (lease not won) after a successful MsgCreateBid without broadcasting MsgCloseBid: the broadcast was still in flight (or its result not yet consumed) when the monitor decided to give up; the result was drained and dropped")
 			} else {
 				bad("bid-not-closed:completed-bid-not-closed", "the order monitor terminated (lease not won) after a successful MsgCreateBid without broadcasting MsgCloseBid")
@@ -697,5 +730,8 @@ func (h *inst) check(r *vs.Result) (string, []string) {
 		}
 	}
 	fmt.Fprintf(&b, "]|ended=%v drained=%v won=%v leasewon=%d", h.ended, h.drained, h.wonPublished, len(h.leaseWon))
+	if len(h.refused) > 0 {
+		fmt.Fprintf(&b, " ctx-done%v", h.refused)
+	}
 	return b.String(), viol
 }
